@@ -813,6 +813,44 @@ pub fn run(tier: Tier) -> i32 {
                         && eng.apply(ItemKind::Step, &[], &[rp.to_lib()]) == Ok(p);
                     match both {
                         _ if !alone_ok => {} // reported for the single rule
+                        Ok(true) if m && p => {
+                            // round 12: the queue of either side, observed through DISALLOW
+                            // probes while the OTHER side's rule is present, must be the queue
+                            // the specification gives for that side alone (nothing that one
+                            // pass consumed may be missing from - or left in - the other's)
+                            let rqm = reference(cfg, Side::Materials, std::slice::from_ref(rm)).unwrap_or_default();
+                            let rqp = reference(cfg, Side::Products, std::slice::from_ref(rp)).unwrap_or_default();
+                            for (side, arts, rq) in [(Side::Materials, &cfg.materials, &rqm), (Side::Products, &cfg.products, &rqp)] {
+                                let mut oq = BTreeSet::new();
+                                let mut panicked = None;
+                                for path in arts.keys() {
+                                    acc.evaluations += 1;
+                                    let probe = ArtifactRule::Disallow(world::vpath(path));
+                                    let r = if side == Side::Materials {
+                                        eng.apply(ItemKind::Step, &[rm.to_lib(), probe], &[rp.to_lib()])
+                                    } else {
+                                        eng.apply(ItemKind::Step, &[rm.to_lib()], &[rp.to_lib(), probe])
+                                    };
+                                    match r {
+                                        Ok(false) => {
+                                            oq.insert(path.clone());
+                                        }
+                                        Ok(true) => {}
+                                        Err(loc) => panicked = Some(loc),
+                                    }
+                                }
+                                if let Some(loc) = panicked {
+                                    acc.violation(&format!("panic:{loc}"), "rule application panicked", || json!({"config": cfg}));
+                                } else if &oq != rq {
+                                    let which = if side == Side::Materials { "materials-queue" } else { "products-queue" };
+                                    acc.violation(
+                                        &format!("queue:{}+{}:both-sides:{which}", rm.kind_name(), rp.kind_name()),
+                                        &format!("with one rule on each side the {which} differs from the specification's queue for that side"),
+                                        || json!({"config": cfg, "materials_rules": [world::rule_json(&rm.to_lib())], "products_rules": [world::rule_json(&rp.to_lib())], "kind": "both-sides", "observed_side": which, "reference_queue": rq, "observed_queue": oq}),
+                                    );
+                                }
+                            }
+                        }
                         Ok(v) if v == (m && p) => {}
                         Ok(v) => acc.violation(
                             &format!("verdict:{}+{}:both-sides", rm.kind_name(), rp.kind_name()),
@@ -875,12 +913,12 @@ pub fn run(tier: Tier) -> i32 {
         alphabet.len()
     );
     c.bound_completed = format!(
-        "BFS to depth {bfs_depth} deduplicated on the remaining queue (the queue only shrinks, so the fixpoint is reached); pure enumeration without deduplication of all lists of length 2 ({}) and one rule per side jointly; end-to-end replay of every single rule through in_toto_verify with the ruled step before / after the referenced step (alternating)",
+        "BFS to depth {bfs_depth} deduplicated on the remaining queue (the queue only shrinks, so the fixpoint is reached); pure enumeration without deduplication of all lists of length 2 ({}) and one rule per side jointly (verdict, and both queues observed through DISALLOW probes while the other side's rule is present); end-to-end replay of every single rule through in_toto_verify with the ruled step before / after the referenced step (alternating)",
         if thorough { "all configurations; length 3 on every 25th configuration" } else { "every 5th configuration" }
     );
     c.assume("normalised relative paths and the portable glob subset (self-tested against glob::Pattern)");
     c.assume("uninterpretable patterns only appear in DISALLOW rules");
-    c.assume("materials and products rule lists are independent (validated by joint enumeration of one rule per side)");
+    c.assume("materials and products rule lists are independent (validated by joint enumeration of one rule per side: verdict and remaining queue of either side)");
     c.finish()
 }
 
